@@ -31,6 +31,11 @@ def oracle(hist, records):
                 bad.append(("select", f"task {t} is not selected by k={cfg.get('k')!r} m={cfg.get('m')!r} (nor needed by a selected task) but its body ran", None))
             if out.get(t) != "SKIP":
                 bad.append(("select", f"task {t} is not eligible under k={cfg.get('k')!r} m={cfg.get('m')!r} but is reported {out.get(t)}", None))
+        # "exactly": SKIP is only ever reported for tasks that are deselected or in the closure of a user-skipped task
+        for t in el - usk:
+            if out.get(t) == "SKIP":
+                bad.append(("only", f"task {t} is eligible under k={cfg.get('k')!r} m={cfg.get('m')!r} and neither it nor anything it depends on carries a "
+                                    f"skip / true skipif mark, but it is reported SKIP", None))
         if obs["exit"] == 1 and not any(o == "FAIL" for o in out.values()):
             bad.append(("exit", "exit code 1 without any failed task", None))
     return bad
@@ -56,6 +61,58 @@ def gen_expr(rng, spec, kind):
     return e(2)
 
 
+SHAPES = {
+    # chain 0 -> 1 -> 2
+    "chain": [(0, [100], [110], []), (1, [110], [111], []), (2, [111], [112], [])],
+    # diamond 0 -> {1, 2} -> 3
+    "diamond": [(0, [100], [110], []), (1, [110], [111], []), (2, [110], [112], []), (3, [111, 112], [113], [])],
+    # 0 -> 1, 2 is `after` 1, 3 independent
+    "after": [(0, [100], [110], []), (1, [110], [111], []), (2, [], [112], [1]), (3, [100], [113], [])],
+}
+PLACEMENTS = [["skip"], ["skipif_true"], ["skipif_false"], ["skipif_false", "skipif_true"]]
+
+
+def small_scope(ctx):
+    """fixed shapes × every single placement of skip / skipif(True) / skipif(False) / both skipifs × options × fresh / built state,
+    and every single-task -k, -m on one marked task, both combined. Quick tier: the option sets rotate; thorough: full product."""
+    full = ctx.thorough or ctx.budget > 1.0
+    hs = []
+    optsets = [{}, {"force": True}, {"dry": True}, {"force": True, "dry": True}]
+    n = 0
+
+    def mk(shape, marks_of):
+        return {"tasks": [{"id": i, "module": i % 2, "deps": d, "prods": p, "after": a, "after_style": "expr", "marks": list(marks_of.get(i, [])),
+                           "beh": "ok", "style": ["default", "annotated", "kwargs"][i % 3]} for (i, d, p, a) in SHAPES[shape]],
+                "versions": {"0": 0, "1": 0}, "inputs": {"100": 5}}
+
+    for shape, tasks in SHAPES.items():
+        for (tid, *_r) in tasks:
+            for pl in PLACEMENTS:
+                for oi, opts in enumerate(optsets):
+                    for built in (False, True):
+                        n += 1
+                        if not full and (n % 8) != (oi * 2 + built):
+                            continue
+                        spec = mk(shape, {tid: pl})
+                        steps = []
+                        if built:
+                            # everything up to date except what the mark blocks; then change the input so that "changed" tasks exist
+                            steps = [["build", {}], ["write", 100, 6]]
+                        steps.append(["build", dict(opts)])
+                        hs.append({"tag": "small-skip", "spec": spec, "steps": steps})
+        ids = [t[0] for t in tasks]
+        for tid in ids:
+            for mid in ids:
+                n += 1
+                if not full and n % 3:
+                    continue
+                spec = mk(shape, {mid: ["markone"]})
+                for cfg in ({"k": project.tname(tid)}, {"m": "markone"}, {"k": project.tname(tid), "m": "markone"},
+                            {"k": project.tname(tid), "m": "not markone", "force": True}):
+                    hs.append({"tag": "small-select", "spec": spec, "steps": [["build", dict(cfg)]]})
+    return hs
+
+
 def histories(ctx):
     rng = ctx.rng
     hs = []
@@ -65,7 +122,8 @@ def histories(ctx):
         {"id": 1, "module": 0, "deps": [20], "prods": [21], "after": [], "marks": [], "beh": "ok", "style": "default"},
         {"id": 2, "module": 0, "deps": [], "prods": [22], "after": [], "marks": [], "beh": "ok", "style": "default"}],
         "versions": {"0": 0}, "inputs": {}}, "steps": [["build", {"k": "task_t00x", "m": "skip"}]]})
-    for i in range(ctx.scale(120, 1300)):
+    hs += small_scope(ctx)
+    for i in range(ctx.scale(100, 1300)):
         spec = engine.gen_spec(rng, nt=(2, 7), after_p=0.25, after_needs_prods=True, user_markers=True,
                                marks=(("skip", 0.12), ("skipif_true", 0.1), ("skipif_false", 0.15), ("persist", 0.08)))
         steps = []
